@@ -25,8 +25,9 @@ LEVEL_TEXT = ("Lean 4 theorems for all graphs about an executable model of inter
               "The model is tied to the code by a differential run on generated DAGs; wall time is not a mathematical object: it is measured on the "
               "real code (allocation counts and time on ladders vs chains, in process and through the CLI) with thresholds an order of magnitude away "
               "from both behaviours.")
-LEVEL_NOTE = ("Partial in the sense of DESIGN section 8: operation counts of the model are proved, real time/allocations are sampled. Output-conflict "
-              "detection (already a visited-set traversal with a cache) is only measured through `grog list/build` on the ladder, not modelled here. "
+LEVEL_NOTE = ("Partial in the sense of DESIGN section 8: operation counts of the model are proved, real time/allocations are sampled. The output-conflict "
+              "pass is modelled with its memo table (pair loops + memoised ancestor search, cost bound 3|pairs| + |V|(1+2|E|(1+|V|))); its sets are tied through an "
+              "in-package go test, its real cost is measured (allocations over graph families x output profiles); which overlaps are conflicts belongs to C11. "
               "Trusted: Lean kernel; propext/Classical.choice/Quot.sound; the correspondence harness.")
 TECHNIQUE = "Lean 4 proof of operation-count bounds over an executable model + differential correspondence + measured growth factors on the real code"
 OBLIGATIONS = [
@@ -39,6 +40,8 @@ OBLIGATIONS = [
     "Grog.C19.ladder_visited_linear",
     "Grog.C19.changes_cost_le",
     "Grog.C19.ancestor_set_cost_le",
+    "Grog.C19.conflict_pass_cost_le",
+    "Grog.C19.changes_filter_independent",
     "Grog.C19.visited_nodup",
 ]
 ASSUMPTIONS = [
